@@ -873,10 +873,12 @@ func (c *FnCtx) canInline(fi *FuncInfo, recv *Term, recvT types.Type) bool {
 	if sig.Variadic() {
 		return false
 	}
+	// loops are allowed: a loop of an inlined function has no invariant, so what it writes is havocked (exactly the
+	// written variables and heap locations) - far less than havocking the whole heap for an unknown callee
 	ok := true
 	ast.Inspect(fi.Decl.Body, func(n ast.Node) bool {
 		switch n.(type) {
-		case *ast.ForStmt, *ast.RangeStmt, *ast.FuncLit, *ast.GoStmt, *ast.DeferStmt, *ast.SelectStmt, *ast.LabeledStmt:
+		case *ast.FuncLit, *ast.GoStmt, *ast.DeferStmt, *ast.SelectStmt, *ast.LabeledStmt:
 			ok = false
 		}
 		return ok
